@@ -70,7 +70,7 @@ def must_accept_cases(snapshot):
     for fn in sorted(os.listdir(tdir)):
         if fn.endswith('.c'):
             p = os.path.join(tdir, fn)
-            out.append({'gen': 'suite', 'family': 'suite', 'id': fn, 'path': p, 'data': open(p, 'rb').read(),
+            out.append({'gen': 'suite', 'family': 'suite', 'id': fn, 'path': 'test/' + fn, 'data': open(p, 'rb').read(), 'cwd': '@SNAP@',
                         'opts': ['-I@SNAP@/include', '-I@SNAP@/test'], 'expect': 'ok'})
     for fn in sorted(os.listdir(snapshot)):
         if fn.endswith('.c') and fn != 'verif_dump.c':
@@ -330,17 +330,32 @@ def gen_deep(rng, thorough):
         add('pp-if-open', b'#if 1\n' * n + b'int x;\n')
         add('pp-paren-expr', b'#if ' + b'(' * n + b'1' + b')' * n + b'\nint x;\n#endif\n')
         add('pp-unary-expr', b'#if ' + b'!' * n + b'1\nint x;\n#endif\n')
-        add('pp-macro-nest', b'#define f(x) x\nint y = ' + b'f(' * n + b'1' + b')' * n + b';\n')
+        add('pp-macro-nest', b'#define f(x) x\nint y = ' + b'f(' * min(n, 1500) + b'1' + b')' * min(n, 1500) + b';\n')
         add('pp-macro-args', b'#define f(...) 1\nint y = f(' + b','.join(b'a' for _ in range(n)) + b');\n')
         add('pp-macro-params', b'#define f(' + b','.join(b'p%d' % i for i in range(min(n, 20000))) + b') p0\nint y = f(1);\n')
-        add('pp-macro-chain', b''.join(b'#define M%d M%d\n' % (i, i + 1) for i in range(min(n, 20000))) + b'#define M%d 1\nint y = M0;\n' % min(n, 20000))
-        add('pp-paste-chain', b'#define C(a) a' + b' ## a' * min(n, 20000) + b'\nint C(x);\n')
+        add('pp-macro-chain', b''.join(b'#define M%d M%d\n' % (i, i + 1) for i in range(min(n, 4000))) + b'#define M%d 1\nint y = M0;\n' % min(n, 4000))
+        add('pp-paste-chain', b'#define C(a) a' + b' ## a' * min(n, 5000) + b'\nint C(x);\n')
         add('pp-stringize-big', b'#define S(x) #x\nchar *s = S(' + b'a ' * n + b');\n')
         add('pp-define-long', b'#define L ' + b'1 + ' * n + b'1\nint x = L;\n')
         add('comment-long', b'/*' + b'/*' * n + b'*/ int x;\n')
         add('line-splices', b'int x' + b'\\\n' * n + b' = 1;\nint y = ;\n')
         add('many-lines', b'\n' * n + b'int y = ;\n')
         add('crlf-lines', b'\r\n' * n + b'int y = ;\n', False)
+    # moderate depth: exponential behaviour shows up long before the stack is exhausted
+    for n in (24, 32, 48):
+        add('exp-paren-declarator', b'int ' + b'(' * n + b'p' + b')' * n + b';\n')
+        add('exp-fnptr-declarator', b'int ' + b'(*' * n + b'f' + b')(void)' * n + b';\n')
+        add('exp-array-of-paren', b'int ' + b'(' * n + b'a[2]' + b')' * n + b' = {1, 2};\n')
+        add('exp-param-declarator', b'int f(int ' + b'(' * n + b'p' + b')' * n + b');\n')
+        add('exp-cast-paren', b'int x = ' + b'(int)(' * n + b'1' + b')' * n + b';\n')
+        add('exp-typeof', b'int x; ' + b'typeof(' * n + b'x' + b')' * n + b' y;\n')
+        add('exp-generic', b'int x = ' + b'_Generic((' * n + b'1' + b'), default: 1)' * n + b';\n')
+        add('exp-sizeof-paren', b'int x = ' + b'sizeof(' * n + b'int' + b')' * n + b';\n')
+        add('exp-local-declarator', b'int main() { int ' + b'(' * n + b'p' + b')' * n + b'; }\n')
+        add('exp-struct-member-declarator', b'struct S { int ' + b'(' * n + b'p' + b')' * n + b'; };\n')
+        add('exp-typedef-declarator', b'typedef int ' + b'(' * n + b'T' + b')' * n + b';\n')
+        add('exp-compound-literal', b'int x = ' + b'(int){' * n + b'1' + b'}' * n + b';\n')
+        add('exp-stmt-expr', b'int main() { return ' + b'({ ' * n + b'1;' + b' });' * n + b' }\n')
     return out
 
 
@@ -591,7 +606,7 @@ class Valid:
         if k == 7:
             return f'({self.const()} {self.pick(["<<", ">>"])} {r.randrange(0, 8)})'
         if k == 8:
-            return f'{self.pick(["-", "~", "!", "+"])}{self.const()}'
+            return f'{self.pick(["-", "~", "!", "+"])}({self.const()})'
         if k == 9:
             return f'({self.itype()}){self.const()}'
         return str(r.randrange(0, 200))
@@ -648,12 +663,14 @@ class Valid:
         tag, mems = t
         parts = []
         first = True
+        need_des = False
         for (m, ty, k) in mems:
             if tag.startswith('union') and not first:
                 break
             if self.chance(0.25) and not first:
+                need_des = True
                 continue
-            des = self.chance(0.4)
+            des = need_des or self.chance(0.4)
             if k in ('int', 'bits'):
                 v = self.const(k == 'bits')
             elif k == 'flt':
@@ -668,8 +685,6 @@ class Valid:
                     v = f'{{[{self.r.randrange(ty)}] = {self.const()}}}'
             else:
                 v = self.init_for(ty, depth + 1) if depth < 3 else '{0}'
-            if not des and not first and parts and parts[-1].startswith('.'):
-                des = True
             parts.append(f'.{m} = {v}' if des else v)
             first = False
         return '{' + ', '.join(parts) + (',' if self.chance(0.2) else '') + '}'
@@ -752,7 +767,7 @@ class Valid:
         if k == 3:
             return f'({e()} ? {e()} : {e()})'
         if k == 4:
-            return f'{self.pick(["-", "~", "!"])}{e()}'
+            return f'{self.pick(["-", "~", "!"])}({e()})'
         if k == 5:
             return f'({self.itype()}){e()}'
         if k == 6 and self.funcs:
@@ -768,7 +783,7 @@ class Valid:
         if k == 10 and env['ints']:
             return f'*&{self.pick(env["ints"])}'
         if k == 11:
-            return f'(int)sizeof({e()})'
+            return f'(int)sizeof(({e()}) + 0)'
         if k == 12:
             return f'_Generic({e()}, int: {e()}, default: {e()})'
         if k == 13:
@@ -862,7 +877,7 @@ class Valid:
             s = f'int {v}[{self.pick(env["ints"])} & 3 | 1];'
             return s
         if k == 5:
-            s = f'typeof({self.expr(env)}) {v} = {self.const()};'
+            s = f'__typeof__(({self.expr(env)}) + 0) {v} = {self.const()};'
             return s
         s = f'{self.itype().replace("const ", "").replace("volatile ", "").replace("const", "")} {v} = {self.expr(env)};'
         env['ints'].append(v)
@@ -882,11 +897,11 @@ class Valid:
         n = self.r.randrange(0, 5)
         ps = [self.fresh('p') for _ in range(n)]
         sig = ', '.join(f'{self.pick(["int", "long", "char", "unsigned", "short"])} {p}' for p in ps) or 'void'
+        sc = self.pick(['', 'static ', 'static inline ', ''])
         if self.chance(0.3):
-            self.out.append(f'{self.pick(["static ", "", "extern "])}int {f}({sig});')
+            self.out.append(('static ' if sc else self.pick(['', 'extern '])) + f'int {f}({sig});')
         env = {'ints': list(ps), 'ptrs': [], 'loop': False}
         body = self.block(env)
-        sc = self.pick(['', 'static ', 'static inline ', ''])
         self.out.append(f'{sc}int {f}({sig}) {body[:-1]} return {self.expr(env)}; }}')
         self.funcs.append((f, n))
 
@@ -909,7 +924,7 @@ def gen_valid(rng, n):
     finally:
         sys.path.pop(0)
     for i in range(n):
-        if cprog is not None and i % 4 == 3:
+        if cprog is not None and i % 8 == 7:
             try:
                 src, flags = cprog.gen_program(rng)
                 out.append({'gen': 'valid-cprog', 'family': 'valid', 'data': src.encode(), 'opts': list(flags or []), 'expect': 'ok',
